@@ -42,4 +42,30 @@ CLAIMS = {
                 "Tie: misuse stream with exact comparison of values, error variants and payloads.",
         "note": "Trusted: Lean kernel; transcription of src/model/mod.rs (Core/SepModel.lean) as validated by the stream; panics of the Rust code are explicit outcomes of the model, their unreachability for builder-made models is c16_args_by_name.",
     },
+    "C01": {
+        "text": "Kernel-checked over every ordered field, all shapes N,M,S, all user models, weights and every SVD routine satisfying SVDSpec: whenever coefficients are present after set_params they satisfy the "
+                "truncated normal equations for all right-hand sides (c01_normal_eq), hence minimise ||y_s - A_eps c|| per column (c01_minimises), are the minimum-norm minimiser (c01_min_norm), "
+                "minimise the ORIGINAL weighted problem whenever only exactly-zero singular values are truncated (c01_original_problem), depend linearly on the data (c01_linear); a negative threshold never yields coefficients "
+                "(c01_negative_eps_absent). SVD::solve is transcribed from nalgebra, not assumed. Tie: coefficients of the real problem vs the model on Float after build and every update, plus the normal-equation / minimum-norm / finiteness monitors on the implementation's own output.",
+        "note": "Trusted: Lean kernel; SVDSpec of nalgebra's SVD (assumed, numerically monitored through the comparison); floating point is modelled not verified (tolerances c*u*kappa^e computed per case); transcription Core/Problem.lean validated by the stream.",
+    },
+    "C02": {
+        "text": "Kernel-checked for every history: weighted data, threshold and weights are never modified by updates (c02_fields_constant, c02_weighted_data); a present cache was computed in the very last set_params call "
+                "from the basis matrix the model returned for the accepted alpha, and its residual matrix is Yw - (W Phi) C for the coefficients in the same cache (c02_cache_is_computed_now); the residual vector is the "
+                "column-after-column stacking, element i + j*N = entry (i,j) (c02_residual_layout). Tie: params(), weighted_data() bit-exact, residuals() within tolerance at every step of every history; monitor: residuals recomputed from the implementation's own C.",
+        "note": "Trusted: as C01. best_fit()/nonlinear_parameters() of a FitResult are compared in the fit stream (C04).",
+    },
+    "C03": {
+        "text": "Kernel-checked: P = U U^T is symmetric, idempotent, fixes A (c03_projector_basic) and at full column rank its range is exactly range(A) (c03_projector_range); every Jacobian block equals -(1-P) W D_k C (c03_column) "
+                "and is orthogonal to range(A) for all right-hand sides (c03_orthogonal); J_k^T r = -(D_k c)^T r for r orthogonal to range(A) (c03_JTr); over the reals 2 J^T r is the exact derivative of the projected objective along any "
+                "differentiable curve satisfying the normal equations (c03_gradient, envelope argument); the flattened layout equals the residuals' (c03_layout); any failing derivative makes the Jacobian absent (c03_all_or_nothing). "
+                "Tie: jacobian() vs model at full rank, orthogonality and formula monitors on the implementation's J.",
+        "note": "Trusted: as C01; c03_gradient is stated for one right-hand side (the objective is a sum over right-hand sides).",
+    },
+    "C10": {
+        "text": "Kernel-checked: after set_params alpha the cache is computeCache(Yw, eps, W Phi) for the Phi the model returned - nothing of earlier states enters (c10_function_of_alpha), so a problem with any history and a fresh one agree (c10_history_free, c10_build_is_set); "
+                "a failed update clears the cache (c10_failed_update_clears); queries do not change the state (c10_query_pure); in the Option-cell transcription of both uninit write loops no uninitialised cell survives, for every shape and every schedule executing all column tasks "
+                "(c10_no_uninit, c10_no_uninit_seq). Tie: history-vs-fresh and repeated-query twins on the real code, bit for bit, plus model comparison of all outputs.",
+        "note": "Trusted: as C01; the quantifier over heap contents is carried by the theorem on the model; on the code it is sampled (a poisoning allocator run is planned, DESIGN.md §7 C10).",
+    },
 }
